@@ -821,19 +821,21 @@ def parse_harness18(text):
         elif line.startswith("REFO "):
             cur["refo"].append(line.split("r=", 1)[1])
         elif line.startswith("I "):
-            m = re.match(r"I (\d+) b=(\d+) c=(\d+) x=(\d+) y=(\d+) tr=(\d+) xt=(\d+) so=(\d+) it=(\d+) hd=(\d) hi=(\S+) h=(\S+) t=(\S+) r=(\S*)", line)
+            m = re.match(r"I (\d+) b=(\d+) c=(\d+) x=(\d+) y=(\d+) tr=(\d+) xt=(\d+) so=(\d+) it=(\d+) hd=(\d) hi=(\S+) uw=(\d+) h=(\S+) t=(\S+) r=(\S*)", line)
             if m:
                 g = m.groups()
                 cur["iters"].append(dict(i=int(g[0]), b=int(g[1]), c=int(g[2]), x=int(g[3]), y=int(g[4]), tr=int(g[5]),
                                          xt=int(g[6]), so=int(g[7]), it=int(g[8]), hd=int(g[9]),
-                                         hi=None if g[10] == "-" else int(g[10]), h=g[11], t=g[12], r=g[13]))
+                                         hi=None if g[10] == "-" else int(g[10]), uw=int(g[11]), h=g[12], t=g[13], r=g[14]))
         elif line.startswith("G "):
             it, rest = line[2:].split(" ", 1)
             cur["gs"].setdefault(int(it), []).append(parse_g(rest))
         elif line.startswith("F "):
             m = re.match(r"F (\d+) kind=(\S+) sched=(\S+) (.*)", line)
             if m:
-                cur["fails"].append(dict(i=int(m.group(1)), kind=m.group(2), sched=m.group(3), msg=m.group(4)))
+                uw = re.search(r"unwound=(\d+)", m.group(4))
+                cur["fails"].append(dict(i=int(m.group(1)), kind=m.group(2), sched=m.group(3), msg=m.group(4),
+                                         unwound=int(uw.group(1)) if uw else 0))
         elif line.startswith("END "):
             cur["end"] = line
         elif line.startswith("SKIPPED "):
@@ -882,7 +884,7 @@ def run_harness18(cases, harness_bin, iters, sched, seed, trace_dir=None, trace_
     return out, hung
 
 
-def check_case18(cid, sp, out, accept=("p8",)):
+def check_case18(cid, sp, out, accept=("p8",), shuttle=False):
     """Per schedule: every returned value equals the specification.  A difference in a later
     revision that the single-threaded REF run of the same history shows as well is the cycle
     engine's known finding; everything else is a finding of this check.
@@ -907,6 +909,11 @@ def check_case18(cid, sp, out, accept=("p8",)):
                 break
             known.append(dict(iter=-1, request=list(key), got=g, want=want, revision=revof[key[0]]))
     for it in o["iters"]:
+        if shuttle and it.get("uw"):
+            # something unwound in this execution: not a sound exploration under shuttle (the
+            # caller re-examines the case on OS threads)
+            res.append(dict(kind="unwound", iter=it["i"], detail=dict(code=it["uw"], results=it["r"])))
+            continue
         got = parse_results(it["r"])
         for key, want in spec.items():
             g = got.get(key)
@@ -919,8 +926,43 @@ def check_case18(cid, sp, out, accept=("p8",)):
                 res.append(dict(kind="values", iter=it["i"], detail=d))
                 break
     for f in o["fails"]:
-        res.append(dict(kind="failure", iter=f["i"], detail=f))
+        res.append(dict(kind="unwound" if (shuttle and f.get("unwound")) else "failure", iter=f["i"],
+                        detail=dict(f, code=f.get("unwound", 0))))
     return res, known
+
+
+def check_case18_os(cid, sp, out, known_panic):
+    """OS-thread re-examination of a case in which something unwound under shuttle.  A request may
+    end in a panic code c only if known_panic(request key, 'pC') holds (the same panic at the
+    same request in some single-threaded linearisation: the cycle engine's known debug-build
+    backdate assertion) or, for PropagatedPanic (p7), if another handle of the same group
+    panicked; a hang or any other difference is a finding."""
+    res, nknown = [], 0
+    o = out.get(cid)
+    if o is None or o["ref"] is None:
+        return [dict(kind="harness", iter=-1, detail="no output for the case")], 0
+    spec, revof = sp["spec"], sp["rev"]
+    ref = parse_results(o["ref"])
+    for it in o["iters"]:
+        got = parse_results(it["r"])
+        for key, want in spec.items():
+            g = got.get(key)
+            if g == want:
+                continue
+            if g is not None and g.startswith("p"):
+                others = [v for k, v in got.items() if k[0] == key[0] and k[1] != key[1] and v.startswith("p")]
+                if (g == "p7" and others) or known_panic(key, g):
+                    nknown += 1
+                    continue
+            if revof[key[0]] > 0 and (ref.get(key) == g or known_panic(key, g)):
+                nknown += 1
+                continue
+            res.append(dict(kind="values", iter=it["i"], detail=dict(request=list(key), got=g, want=want,
+                                                                      revision=revof[key[0]], single_threaded=ref.get(key))))
+            break
+    for f in o["fails"]:
+        res.append(dict(kind="failure", iter=f["i"], detail=f))
+    return res, nknown
 
 
 def stats18(out):
@@ -981,6 +1023,8 @@ def cert_requests(cases, out):
         tree = se.parse_sx(c)
         cfg = tree_section(tree, "cfg")
         for it in o["iters"]:
+            if it.get("uw"):
+                continue            # something unwound in this execution (not sound under shuttle)
             got = parse_results(it["r"])
             for g in o["gs"].get(it["i"], []):
                 snap = snapshot_at(tree, g["op"])
